@@ -1016,6 +1016,12 @@ class Interp:
             modname = ".".join(base + ([modname] if modname else []))
         for a in s.names:
             nm = a.asname or a.name
+            # an import inside the function under contract binds a local name: the contract's stub for that name (given in
+            # __free__) stands in for it exactly as it does for module-level names
+            free = (self.path.ghost.get("__free__") or {}) if self.frames and self.frames[-1].is_top else {}
+            if nm in free:
+                env.set(nm, free[nm])
+                continue
             env.set(nm, self.resolve_from(modname, a.name))
 
     def resolve_module(self, name):
@@ -1640,7 +1646,14 @@ class Interp:
             return
         if isinstance(key, SliceV) and (key.step is None or key.step == 1):
             if isinstance(val, Arr):
-                raise Unsupported("slice store of an array value")
+                # a[lo:hi] = values: the lengths must agree (numpy raises ValueError otherwise: a shape obligation)
+                lo, hi = self.slice_bounds(key, n)
+                hi = z3.If(hi < lo, lo, hi)
+                self.path.oblige("shape", f"slice-store-lengths#{self.path.ordinal('slicestore')}", val.n == hi - lo,
+                                 getattr(node, "lineno", None))
+                fv = val.at
+                base.at = lambda k, old_at=old_at, lo=lo, hi=hi, fv=fv: z3.If(z3.And(k >= lo, k < hi), fv(k - lo), old_at(k))
+                return
             lo, hi = self.slice_bounds(key, n)
             v = to_term(val)
             base.at = lambda k, old_at=old_at, lo=lo, hi=hi, v=v: z3.If(z3.And(k >= lo, k < hi), v, old_at(k))
@@ -1728,7 +1741,10 @@ class Interp:
                 elif isinstance(x, z3.SeqRef) and v.format_spec is None:
                     parts.append(x)
                 else:
-                    return Opaque("fstring")
+                    # not a concrete string: opaque, but the evaluated pieces are kept for stubs that interpret them
+                    o = Opaque("fstring")
+                    o.parts = [(vv.value if isinstance(vv, ast.Constant) else self.eval(vv.value, env)) for vv in e.values]
+                    return o
         if all(isinstance(p, str) for p in parts):
             return "".join(parts)
         out = None
@@ -2306,6 +2322,10 @@ class Interp:
             if isinstance(key, SliceV) and key.start is None and key.stop is None and key.step == -1:
                 n_, at_ = base.n, base.at
                 return SymList(n_, lambda k: at_(n_ - 1 - k))
+            if isinstance(key, SliceV) and key.step is None:
+                lo, hi = self.slice_bounds(key, base.n)
+                at_ = base.at
+                return SymList(spec.Max(hi - lo, 0), lambda k, lo=lo: at_(lo + k))
         if isinstance(base, SegList):
             if isinstance(key, int) and all(k == "one" for k, _ in base.segs):
                 return self.getitem([v for _, v in base.segs], key, node)
